@@ -58,7 +58,16 @@ def main():
         caught = [p for p, v in row.items() if v == 'CAUGHT']
         errs = {p: v for p, v in row.items() if isinstance(v, str) and v.startswith('ERR')}
         print(sd, 'caught by', caught or 'NOTHING', errs or '', flush=True)
-        json.dump(row, open(os.path.join(sd, 'checks.json'), 'w'), indent=1)
+        cj = os.path.join(sd, 'checks.json')
+        if props and os.path.exists(cj):
+            # a run restricted to some properties refreshes only their columns
+            old = json.load(open(cj))
+            for p in props:
+                old.pop(p, None)
+                old.pop(p + ':keys', None)
+            old.update(row)
+            row = old
+        json.dump(row, open(cj, 'w'), indent=1)
 
 if __name__ == '__main__':
     try:
